@@ -194,11 +194,18 @@ class TransitWorld:
                 self.rx.listenTCP(port, StrangerServer(stranger_script(kind, role)))
                 h = {"type": "direct-tcp-v1", "hostname": X_HOST, "port": port, "priority": 0.0}
                 (extra_s if target == "hint-for-S" else extra_r).append(h)
+            if target in ("relay-hint-for-S", "relay-hint-for-R"):
+                # a relay server run by someone without the transit key: it answers "ok" and then speaks itself, in one segment
+                port = 47000 + i
+                role = "receiver" if target == "relay-hint-for-S" else "sender"
+                self.rx.listenTCP(port, StrangerServer(b"ok\n" + stranger_script(kind, role)))
+                h = {"type": "relay-v1", "hints": [{"type": "direct-tcp-v1", "hostname": X_HOST, "port": port, "priority": 0.0}]}
+                (extra_s if target == "relay-hint-for-S" else extra_r).append(h)
         self.S.add_connection_hints(hr[0] + extra_s)
         self.R.add_connection_hints(hs[0] + extra_r)
         self.results = {"S": None, "R": None}
         self.called = {"S": False, "R": False}
-        self.stranger_done = [t in ("hint-for-S", "hint-for-R") for (_, t) in self.stranger_specs]
+        self.stranger_done = [t in ("hint-for-S", "hint-for-R", "relay-hint-for-S", "relay-hint-for-R") for (_, t) in self.stranger_specs]
         self.lose_left = cfg.get("lose", 0)
         self.explored = set(cfg.get("explored", ("api", "conn_ok", "conn_fail", "deliver", "timer", "close", "lose", "stranger")))
         self.monitors = list(cfg.get("monitors", ()))
